@@ -563,7 +563,8 @@ def canon_reply(f):
 
 def payload_mode_of_builder(b):
     # the variable that ends up in the `payload` field of the sub-message, whatever it is called
-    mv = re.search(r"\bpayload(?: : (\w+))? [,}]", b)
+    lit = b[b.rfind("SubMsg {"):] if "SubMsg {" in b else b
+    mv = re.search(r"\bpayload(?: : (\w+))? [,}]", lit)
     var = (mv.group(1) if mv and mv.group(1) else "payload")
     m = re.search(r"let %s = (?:match )?sylvia :: cw_std :: to_json_binary \(& \((.*?)\)\)(?: \? ;| \{)" % re.escape(var), b)
     if m:
